@@ -392,7 +392,7 @@ def parse_assumptions(out):
                 blocks.append(cur)
             cur = []
         elif cur is not None:
-            m = re.match(r"^([A-Za-z_][A-Za-z0-9_.']*)\s*:", line)
+            m = re.match(r"^([A-Za-z_][A-Za-z0-9_.']*)\s*(:|$)", line)
             if m:
                 cur.append(m.group(1))
     if cur is not None:
